@@ -2,7 +2,7 @@
 """C18 -- a dirfile being appended to can be read concurrently and consistently.
 
 proof:   Properties_C18.v (nframes_monotone, prefix_consistent, no_partial, never_absent_in_place,
-         never_absent_out_of_place, long_lived_{fixed,refuted,for_code}) over C18/Append.v on the filesystem of C12
+         never_absent_out_of_place, long_lived_consistent (full, current source), long_lived_{fixed,refuted}) over C18/Append.v on the filesystem of C12
 tie:     harness/C12/shim.c in interactive mode stops the REAL writer (harness/C18/app.c: a foreign
          raw-byte writer with sample-splitting chunks, and the library's gd_putdata/gd_sync/gd_flush
          on unencoded and gzip data) before every system call; at every stop a reader process runs
@@ -16,15 +16,16 @@ sys.path.insert(0, os.path.join(os.path.dirname(os.path.abspath(__file__)), ".."
 import vlib, shimlib
 
 K_DESYNC = "raw/long-lived-handle/read-past-partial-sample-desynchronises"
-K_SIEHELD = "sie/long-lived-handle/frames-differ"
+K_SIEHELD = "sie/long-lived-handle/stale-stdio-buffer-after-rewind"
+K_SIEZERO = "sie/writer/placeholder-zero-record-visible-before-data"
 K_GZHELD = "gzip/long-lived-handle/frame-count-from-new-file-data-from-old-descriptor"
 SPF_A = 3
 
 
-def make_dirfile(d, enc, fa=2, fb=2):
+def make_dirfile(d, enc, fa=2, fb=2, spf=SPF_A):
     os.makedirs(d)
-    open(os.path.join(d, "format"), "w").write("/VERSION 9\n/ENDIAN little\n/ENCODING %s\na RAW INT16 %d\nb RAW UINT8 1\n/REFERENCE a\n" % (enc, SPF_A))
-    da = struct.pack("<%dh" % (fa * SPF_A), *[1000 + i for i in range(fa * SPF_A)])
+    open(os.path.join(d, "format"), "w").write("/VERSION 9\n/ENDIAN little\n/ENCODING %s\na RAW INT16 %d\nb RAW UINT8 1\n/REFERENCE a\n" % (enc, spf))
+    da = struct.pack("<%dh" % (fa * spf), *[1000 + i for i in range(fa * spf)])
     db = bytes(i & 0xff for i in range(fb))
     if enc == "gzip":
         open(os.path.join(d, "a.gz"), "wb").write(gzip.compress(da)); open(os.path.join(d, "b.gz"), "wb").write(gzip.compress(db))
@@ -119,7 +120,8 @@ def main():
             ("lib", "gzip", ["write", None, "p:a:6", "p:b:2", "s", "p:a:3", "f", "p:a:3", "p:b:1", "c", "p:a:6"]),
             ("lib", "gzip", ["write", None] + lib_ops(6, ["s", "f", "c"])),
             ("lib", "text", ["write", None, "p:a:4", "p:b:1", "s", "p:a:5", "p:b:2", "f", "p:a:3", "m", "p:a:6"]),
-            ("lib", "sie", ["write", None, "p:a:4", "p:b:1", "s", "p:a:5", "p:b:2", "f", "p:a:3", "m", "p:a:6"])]
+            ("lib", "sie", ["write", None, "p:a:4", "p:b:1", "s", "p:a:5", "p:b:2", "f", "p:a:3", "m", "p:a:6"]),
+            ("lib", "sie", ["write", None, "p:a:2", "p:a:1", "s", "p:a:3", "f", "p:a:2"], 1)]
     if chk.thorough:
         for _ in range(12):
             scen.append(("raw-foreign", "none", ["rawwrite", None, "2", "1000", "6", str(rng.choice([18, 30, 45]))] + [str(c) for c in rand_chunks(9)]))
@@ -128,14 +130,16 @@ def main():
     nontriv = set()
     counts = {"scenarios": len(scen), "stops": 0, "passes": 0, "by_kind": {}}
     mlines, mown = [], []
-    for sid, (kind, enc, cmd) in enumerate(scen):
+    for sid, sc_ in enumerate(scen):
+        kind, enc, cmd = sc_[:3]
+        spf = sc_[3] if len(sc_) > 3 else SPF_A
         d = os.path.join(base, "s%d" % sid, "df")
-        make_dirfile(d, enc)
+        make_dirfile(d, enc, spf=spf)
         if enc in ("text", "sie"):
-            vlib.sh([exe, "write", d, "p:a:%d" % (2 * SPF_A), "p:b:2"], timeout=60)
+            vlib.sh([exe, "write", d, "p:a:%d" % (2 * spf), "p:b:2"], timeout=60)
         counts["by_kind"][kind + "/" + enc] = counts["by_kind"].get(kind + "/" + enc, 0) + 1
         cmd = [exe] + [(os.path.join(d, "a") if cmd[0] == "rawwrite" else d) if c is None else c for c in cmd]
-        desc = {"writer": kind, "encoding": enc, "command": " ".join(cmd[1:]).replace(d, "DIR"),
+        desc = {"writer": kind, "encoding": enc, "spf_of_reference_field": spf, "command": " ".join(cmd[1:]).replace(d, "DIR"),
                 "how": "harness/C18/app reader DIR (commands fresh/held/greedy on stdin) while harness/C12/shim -r DIR -i -- harness/C18/app %s is stepped with 'c'" % " ".join(cmd[1:]).replace(d, "DIR")}
         reader = subprocess.Popen([exe, "reader", d], stdin=subprocess.PIPE, stdout=subprocess.PIPE)
         ready = reader.stdout.readline().decode()
@@ -187,9 +191,10 @@ def main():
                 last_nf[tag] = max(last_nf[tag], p["nf"])
                 a = p["fields"].get("a")
                 if p["nf"] > 0:
-                    want = [1000 + i for i in range(p["nf"] * SPF_A)]
+                    want = [1000 + i for i in range(p["nf"] * spf)]
                     if a is None or a["e"] != 0 or a["v"] != want:
-                        spec_bad.append((K_SIEHELD if (enc == "sie" and tag == "held" and a is not None and a["e"] == 0) else K_GZHELD if (enc == "gzip" and tag == "held" and a is not None and a["e"] == 0 and a["v"] == want[:len(a["v"])]) else "%s/%s/%s-frames-differ" % (kind, enc, tag),
+                        spec_bad.append((K_SIEZERO if (enc == "sie" and tag == "fresh" and a is not None and a["e"] == 0 and len(a["v"]) == len(want) and a["v"][:-1] == want[:-1] and a["v"][-1] == 0) else
+                                         K_SIEHELD if (enc == "sie" and tag == "held" and a is not None and a["e"] == 0) else K_GZHELD if (enc == "gzip" and tag == "held" and a is not None and a["e"] == 0 and a["v"] == want[:len(a["v"])]) else "%s/%s/%s-frames-differ" % (kind, enc, tag),
                                          "%s reader %s: %d frames reported but reading them gives %s (error %s) instead of the %d samples the writer wrote" % (
                                              tag, label, p["nf"], (a or {}).get("v", [])[:12], (a or {}).get("e"), len(want)), dict(desc, at=label, kind="impl-vs-spec", seen=p["raw"][:600])))
                     b = p["fields"].get("b")
